@@ -137,6 +137,31 @@ class NotEvaluable(Exception):
     pass
 
 
+class NeedAtom(Exception):
+    def __init__(self, key):
+        self.key = key
+
+
+def truths(test, env=None, calls=(), atom_ok=None, max_atoms=6):
+    """all truth values the test can take for the given bindings, over every assignment of
+    its opaque boolean atoms -> list of (atom assignment dict, bool)"""
+    out = []
+
+    def go(atoms):
+        if len(atoms) > max_atoms:
+            raise NotEvaluable("more than %d opaque atoms in %s" % (max_atoms, ast.unparse(test)))
+        try:
+            v = Ev(env, calls, atoms=atoms, atom_ok=atom_ok).truth(test)
+        except NeedAtom as n:
+            go(dict(atoms, **{n.key: True}))
+            go(dict(atoms, **{n.key: False}))
+            return
+        out.append((atoms, bool(v)))
+
+    go({})
+    return out
+
+
 class Opaque:
     """a value the evaluator knows nothing about (only identity)"""
 
@@ -167,9 +192,26 @@ class Ev:
     (`ast.unparse`) to a value; `calls` maps a predicate on a Call node to a value provider
     (list of (matcher(call) -> bool, provider(call, ev) -> value))."""
 
-    def __init__(self, env=None, calls=()):
+    def __init__(self, env=None, calls=(), atoms=None, atom_ok=None):
         self.env = dict(env or {})
         self.calls = list(calls)
+        self.atoms = atoms          # None: no opaque atoms; dict: truth values of opaque boolean atoms
+        self.atom_ok = atom_ok      # predicate(expr): may this sub-expression be treated as an opaque atom?
+
+    def truth(self, e):
+        """value of e in a boolean context; a sub-expression outside the fragment becomes an
+        opaque boolean atom when atoms are enabled and atom_ok allows it"""
+        if self.atoms is None or isinstance(e, (ast.BoolOp,)) or (isinstance(e, ast.UnaryOp) and isinstance(e.op, ast.Not)):
+            return self._plain(self(e), e)
+        try:
+            return self._plain(self(e), e)
+        except NotEvaluable:
+            if self.atom_ok is not None and not self.atom_ok(e):
+                raise
+            key = ast.unparse(e)
+            if key in self.atoms:
+                return self.atoms[key]
+            raise NeedAtom(key)
 
     def __call__(self, e):
         key = ast.unparse(e)
@@ -203,9 +245,9 @@ class Ev:
         return {self(x) for x in e.elts}
 
     def e_UnaryOp(self, e):
-        v = self._plain(self(e.operand), e)
         if isinstance(e.op, ast.Not):
-            return not v
+            return not self.truth(e.operand)
+        v = self._plain(self(e.operand), e)
         if isinstance(e.op, ast.USub):
             return -v
         if isinstance(e.op, ast.Invert):
@@ -218,13 +260,13 @@ class Ev:
         if isinstance(e.op, ast.And):
             v = True
             for x in e.values:
-                v = self._plain(self(x), e)
+                v = self.truth(x)
                 if not v:
                     return v
             return v
         v = False
         for x in e.values:
-            v = self._plain(self(x), e)
+            v = self.truth(x)
             if v:
                 return v
         return v
